@@ -2,8 +2,10 @@ package validator
 
 import (
 	"context"
+	"fmt"
 	"github.com/aml-org/amf-custom-validator/internal/generator"
 	"github.com/aml-org/amf-custom-validator/internal/parser"
+	"github.com/aml-org/amf-custom-validator/internal/parser/profile"
 	e "github.com/aml-org/amf-custom-validator/pkg/events"
 	"github.com/open-policy-agent/opa/ast"
 	"github.com/open-policy-agent/opa/rego"
@@ -33,10 +35,23 @@ func GenerateRego(profileText string, debug bool, eventChan *chan e.Event) (*gen
 
 	// Generate Rego code
 	dispatchEvent(e.NewEvent(e.RegoGenerationStart), eventChan)
-	module := generator.Generate(*parsed)
+	module, err := generate(*parsed)
 	dispatchEvent(e.NewEvent(e.RegoGenerationDone), eventChan)
 
-	return &module, err
+	if err != nil {
+		return nil, err
+	}
+	return &module, nil
+}
+
+// generate runs the generator, which reports a profile it cannot translate (unknown prefix, malformed IRI) by panicking
+func generate(parsed profile.Profile) (module generator.RegoUnit, err error) {
+	defer func() {
+		if r := recover(); r != nil {
+			err = fmt.Errorf("cannot generate Rego: %v", r)
+		}
+	}()
+	return generator.Generate(parsed), nil
 }
 
 // unsafeBuiltinsMap When updating to 0.35 ast.NetLookupIPAddr will be available and needs to be added and blocked too
